@@ -51,11 +51,14 @@ theorem parseDfa_builds (text : List Char) (D : DFA String String) (h : Parse.pa
         exact ⟨_, ht, by simp⟩
 
 /-- non-vacuity: an accepted text without `states` / `input_symbols` declarations … -/
-example : ∃ D, Parse.parseDfa "initial p\nfinal q\np q a b\nq q a\nq p b".toList = .ok D ∧
-    D.Q = ["p", "q"] ∧ D.Sigma = ["a", "b"] := ⟨_, rfl, rfl, rfl⟩
+example : Parse.parseDfa "initial p\nfinal q\np q a b\nq q a\nq p b".toList =
+    .ok { Q := ["p", "q"], Sigma := ["a", "b"], q0 := "p", F := ["q"],
+          delta := [(("p", "a"), "q"), (("p", "b"), "q"), (("q", "a"), "q"), (("q", "b"), "p")] } := by rfl
 /-- … and one with both -/
-example : ∃ D, Parse.parseDfa "states q p r\ninput_symbols b a\ninitial p\nfinal q\np q a b\nq q a\nq p b\nr r a b".toList = .ok D ∧
-    D.Q = ["q", "p", "r"] ∧ D.Sigma = ["b", "a"] := ⟨_, rfl, rfl, rfl⟩
+example : Parse.parseDfa "states q p r\ninput_symbols b a\ninitial p\nfinal q\np q a b\nq q a\nq p b\nr r a b".toList =
+    .ok { Q := ["q", "p", "r"], Sigma := ["b", "a"], q0 := "p", F := ["q"],
+          delta := [(("p", "a"), "q"), (("p", "b"), "q"), (("q", "a"), "q"), (("q", "b"), "p"),
+                    (("r", "a"), "r"), (("r", "b"), "r")] } := by rfl
 
 theorem parseNfa_builds (text : List Char) (N : NFA String String) (h : Parse.parseNfa text = .ok N) :
     ∃ A0, Parse.parseRaw .nfa Parse.isWord text = .ok A0 ∧
@@ -103,11 +106,13 @@ theorem parseNfa_builds (text : List Char) (N : NFA String String) (h : Parse.pa
         exact ⟨⟨_, ht, by simp⟩, hne⟩
 
 /-- non-vacuity: ε inferred from a label, Σ inferred from the labels -/
-example : ∃ N, Parse.parseNfa "initial p\nfinal q\np q a ε\nq q a".toList = .ok N ∧ N.Sigma = ["a"] ∧ N.eps = "ε" ∧
-    N.succ "p" "ε" = ["q"] := ⟨_, rfl, rfl, rfl, rfl⟩
+example : Parse.parseNfa "initial p\nfinal q\np q a ε\nq q a".toList =
+    .ok { Q := ["p", "q"], Sigma := ["a"], q0 := "p", F := ["q"], eps := "ε",
+          delta := [(("p", "a"), ["q"]), (("p", "ε"), ["q"]), (("q", "a"), ["q"])] } := by rfl
 /-- … and everything declared -/
-example : ∃ N, Parse.parseNfa "states p q\nepsilon e\ninput_symbols a b\ninitial p\nfinal q\np q a e\np p a".toList = .ok N ∧
-    N.Sigma = ["a", "b"] ∧ N.eps = "e" ∧ N.succ "p" "a" = ["q", "p"] := ⟨_, rfl, rfl, rfl, rfl⟩
+example : Parse.parseNfa "states p q\nepsilon e\ninput_symbols a b\ninitial p\nfinal q\np q a e\np p a".toList =
+    .ok { Q := ["p", "q"], Sigma := ["a", "b"], q0 := "p", F := ["q"], eps := "e",
+          delta := [(("p", "a"), ["q", "p"]), (("p", "e"), ["q"])] } := by rfl
 
 #print axioms parseDfa_builds
 #print axioms parseNfa_builds
